@@ -19,7 +19,7 @@ RULE = ("valid E5 byte strings from the reference encoder with a seeded choice o
         "choices enumerated for every format code), random nestings, finite float bit patterns and reference-accepted "
         "byte mutants; fed to ANYVALUE, Dynamic(types), the typed classes and every catalogued data item for each of "
         "its allowed formats and to Dynamic([]) (all types), each also decoded into an object that already holds another value; distinct by (target, input bytes); non-trivial when it has a non-minimal length field, "
-        "a nesting or >1 element")
+        "a nesting or >1 element; plus: the same bytes decoded into an object whose value was set with an explicitly typed variable (own element type / length limit)")
 ASSUMPTIONS = ["lib/e5ref.py strict decoder defines which byte strings are valid E5 items and what they denote",
                "format codes the library does not claim to support (2-byte characters 0o22) and non-finite floats are excluded",
                "for A items bytes >= 0x80 only byte-level round-trip is demanded"]
